@@ -84,7 +84,7 @@ int h_dict_op(hp_line *l)
 	}
 	printf(" %zu,%zu,%d\n", d->pos, d->full, d->has_wrapped ? 1 : 0);
 	free(scratch);
-	lzma_next_end(&next, NULL);
+	next.end(next.coder, NULL);
 	free(preset);
 	return 1;
 }
